@@ -98,6 +98,54 @@ Section W.
     intros (Hn & _). unfold a_live. rewrite <- Hn. destruct (get_node h n); cbn; split; congruence.
   Qed.
 
+  (* ---------------------------------------------------------------- the free-index oracle
+     [prefer pick h] only permutes the list of free indices: every query, the invariant and the representation
+     relation are insensitive to it, so every statement below holds for EVERY choice of free index *)
+  Lemma pick_first_spec (f : nid) (fr : list nid) : NoDup fr ->
+    NoDup (pick_first f fr) /\ forall x, In x (pick_first f fr) <-> In x fr.
+  Proof.
+    intros Hnd. unfold pick_first. destruct (mem_spec Nat.eqb Nat.eqb_spec f fr) as [Hin|Hn]; [|tauto].
+    split.
+    - constructor; [|now apply NoDup_filter].
+      intros H. apply filter_In in H. destruct H as [_ H]. now rewrite Nat.eqb_refl in H.
+    - intros x. cbn [In]. rewrite filter_In. destruct (Nat.eqb_spec x f) as [->|Hne]; cbn; [tauto|].
+      split; [intros [E|[H _]]; [congruence|assumption]|intros H; right; split; [assumption|reflexivity]].
+  Qed.
+  Lemma prefer_nodes pick (h : hugr) : nodes (prefer pick h) = nodes h.
+  Proof. destruct pick; reflexivity. Qed.
+  Lemma prefer_links pick (h : hugr) : links (prefer pick h) = links h.
+  Proof. destruct pick; reflexivity. Qed.
+  Lemma prefer_root pick (h : hugr) : root (prefer pick h) = root h.
+  Proof. destruct pick; reflexivity. Qed.
+  Lemma prefer_get pick (h : hugr) n : get_node (prefer pick h) n = get_node h n.
+  Proof. destruct pick; reflexivity. Qed.
+  Lemma prefer_free_nil pick (h : hugr) : free h = [] -> prefer pick h = h.
+  Proof. destruct pick as [f|]; [|reflexivity]. destruct h as [ns ls fr rt]. cbn. intros ->. reflexivity. Qed.
+  Lemma prefer_free_length pick (h : hugr) : NoDup (free h) -> length (free (prefer pick h)) = length (free h).
+  Proof.
+    intros Hnd. destruct pick as [f|]; [|reflexivity]. cbn [prefer free].
+    destruct (pick_first_spec f (free h) Hnd) as [Hnd' Hin].
+    apply Nat.le_antisymm; apply NoDup_incl_length; try assumption; intros x Hx; now apply Hin.
+  Qed.
+  Lemma FreeOK_prefer pick (h : hugr) : FreeOK h -> FreeOK (prefer pick h).
+  Proof.
+    destruct pick as [f|]; [|auto]. intros (Hnd & Hfree). destruct (pick_first_spec f (free h) Hnd) as [Hnd' Hin].
+    split; cbn [prefer free nodes]; [exact Hnd'|]. intros n. rewrite Hin. exact (Hfree n).
+  Qed.
+  Lemma Inv_prefer pick (h : hugr) : Inv h -> Inv (prefer pick h).
+  Proof.
+    destruct pick as [f|]; [|auto]. intros (HL & HF & HC & HT).
+    split; [exact HL|]. split; [exact (FreeOK_prefer (Some f) h HF)|]. split; [exact HC|exact HT].
+  Qed.
+  Lemma Rep_prefer pick (h : hugr) g : Rep h g -> Rep (prefer pick h) g.
+  Proof. destruct pick; auto. Qed.
+  (* an admissible choice is the index the next add_node takes *)
+  Lemma prefer_head f (h : hugr) : In f (free h) -> exists r, free (prefer (Some f) h) = f :: r.
+  Proof.
+    intros Hin. cbn [prefer free]. unfold pick_first.
+    destruct (mem_spec Nat.eqb Nat.eqb_spec f (free h)); [eauto|contradiction].
+  Qed.
+
   (* pointwise effect of a_upd *)
   Lemma aget_dset (l : list (nid * anode Op Meta)) k v k' :
     aget (dset Nat.eqb l k v) k' = if Nat.eqb k' k then Some v else aget l k'.
@@ -659,6 +707,54 @@ Section W.
     destruct Hs as (_ & HI1 & HR1). now apply IH.
   Qed.
 
+  (* ---- the same for every choice of free indices (the oracle of model/Graph.v) ---- *)
+  Theorem bstep_at_refines pick (h : hugr) g c h' rt r : Inv h -> Rep h g -> bstep_at pick h c = (h', rt, r) ->
+    match s_bstep g c rt with
+    | OutOfScope => True
+    | Bad => False
+    | Next g' => r = Ok /\ Inv h' /\ Rep h' g'
+    end.
+  Proof.
+    intros HI HR. unfold bstep_at.
+    exact (bstep_refines _ g c h' rt r (Inv_prefer _ h HI) (Rep_prefer _ h g HR)).
+  Qed.
+  (* the admissible choice is honoured: the new node gets the index the oracle names *)
+  Theorem add_node_takes_the_choice (h : hugr) f o p k m : In f (free h) ->
+    snd (fst (add_node_raw (prefer (Some f) h) o p k m)) = f.
+  Proof.
+    intros Hin. destruct (prefer_head f h Hin) as (r & E). unfold add_node_raw. rewrite E.
+    destruct p as [p|].
+    - destruct (get_node _ p); [|reflexivity]. destruct k; [|reflexivity]. destruct (get_node _ f); reflexivity.
+    - destruct k; [|reflexivity]. destruct (get_node _ f); reflexivity.
+  Qed.
+  (* the history as the specification sees it, choices given: every command with the value the model returned *)
+  Fixpoint trace_at (h : hugr) (cs : list (bcmd Op Meta * ret)) : list (bcmd Op Meta * ret) :=
+    match cs with
+    | [] => []
+    | (c, pick) :: r => let '(h', rt, _) := bstep_at pick h c in (c, rt) :: trace_at h' r
+    end.
+  Theorem brun_at_refines cs : forall h g g', Inv h -> Rep h g ->
+    s_brun g (trace_at h cs) = Next g' -> Inv (brun_at h cs) /\ Rep (brun_at h cs) g'.
+  Proof.
+    induction cs as [|[c pick] cs IH]; intros h g g' HI HR; cbn [trace_at s_brun brun_at fold_left].
+    - intros [= <-]. auto.
+    - cbn [fst snd]. destruct (bstep_at pick h c) as [[h1 rt] r] eqn:E. cbn [s_brun fst].
+      pose proof (bstep_at_refines pick h g c h1 rt r HI HR E) as Hs.
+      destruct (s_bstep g c rt) as [| |g1]; try discriminate.
+      destruct Hs as (_ & HI1 & HR1). intros H. exact (IH h1 g1 g' HI1 HR1 H).
+  Qed.
+  Theorem brun_at_never_bad cs : forall h g, Inv h -> Rep h g -> s_brun g (trace_at h cs) <> Bad.
+  Proof.
+    induction cs as [|[c pick] cs IH]; intros h g HI HR; cbn [trace_at s_brun]; [discriminate|].
+    destruct (bstep_at pick h c) as [[h1 rt] r] eqn:E. cbn [s_brun].
+    pose proof (bstep_at_refines pick h g c h1 rt r HI HR E) as Hs.
+    destruct (s_bstep g c rt) as [| |g1]; [discriminate|contradiction|].
+    destruct Hs as (_ & HI1 & HR1). now apply IH.
+  Qed.
+  (* without choices the oracle version is the plain one *)
+  Lemma bstep_at_none (h : hugr) c : bstep_at RUnit h c = bstep h c.
+  Proof. reflexivity. Qed.
+
   (* Hugr(root_op) *)
   Lemma LInv_empty : LInv {| fwd := []; bck := [] |}.
   Proof.
@@ -978,6 +1074,25 @@ Section W.
     - now rewrite H6.
     - now rewrite H2.
     - pose proof (get_refines h g n HR) as H'. rewrite Hfresh in H'. destruct (get_node h n); [discriminate|reflexivity].
+  Qed.
+
+  (* the corollaries that mention an allocation, for every choice of free index *)
+  Theorem live_nodes_keep_index_at pick (h : hugr) g c h' rt r g' n d : Inv h -> Rep h g ->
+    bstep_at pick h c = (h', rt, r) -> s_bstep g c rt = Next g' -> get_node h n = Some d -> c <> DelNode n ->
+    exists d', get_node h' n = Some d' /\ nd_op d' = nd_op d /\ nd_parent d' = nd_parent d /\ nd_meta d' = nd_meta d /\
+               (nd_inps d <= nd_inps d')%Z /\ (nd_outs d <= nd_outs d')%Z.
+  Proof.
+    intros HI HR Hb Hs Hd. unfold bstep_at in Hb. rewrite <- (prefer_get (pick_of pick) h n) in Hd.
+    exact (live_nodes_keep_index _ g c h' rt r g' n d (Inv_prefer _ h HI) (Rep_prefer _ h g HR) Hb Hs Hd).
+  Qed.
+  Theorem port_count_at_creation_at pick (h : hugr) g o parent k m : Inv h -> Rep h g -> a_live g (dflt g parent) = true ->
+    exists h' n, add_node (prefer pick h) o parent k m = (h', n, Ok) /\ num_out_ports h' n = Some (zdflt k) /\
+                 q_parent h' n = Some (Some (dflt g parent)) /\ get_node h n = None.
+  Proof.
+    intros HI HR Hp.
+    destruct (port_count_at_creation _ g o parent k m (Inv_prefer pick h HI) (Rep_prefer pick h g HR) Hp)
+      as (h' & n & H1 & H2 & H3 & H4).
+    exists h', n. rewrite prefer_get in H4. auto.
   Qed.
 
   Theorem reachable_refines (o : Op) (m : Meta) cs g' :
